@@ -26,20 +26,24 @@
 (***************************************************************************)
 EXTENDS Naturals, Sequences, FiniteSets, TLC
 
-CONSTANTS Atomic, SkipTruth, MaxRuns, BySpelling
+CONSTANTS Atomic, SkipTruth, MaxRuns, BySpelling, Twin, Rich, SkipKind
 
-Kinds == <<"argparse", "class", "function">>     \* processing order of ground_truth
-K     == {"argparse", "class", "function"}
+\* Twin = TRUE: a second file of the truth's kind is named as well ("twin": an ordinary target, not the truth).
+\* Rich = FALSE shrinks the frames so that the larger project stays checkable in seconds.
+BaseK == {"argparse", "class", "function"}
+Kinds == <<"argparse", "class", "function">> \o (IF Twin THEN <<"twin">> ELSE <<>>)     \* processing order of ground_truth
+K     == BaseK \cup (IF Twin THEN {"twin"} ELSE {})
 Ver   == {"v1", "v2"}
-Ids   == {<<>>, <<"s1">>, <<"s1", "s2">>}
+Ids   == IF Rich THEN {<<>>, <<"s1">>, <<"s1", "s2">>} ELSE {<<>>, <<"s1">>}
+AfterIds == IF Rich THEN {<<>>, <<"t1">>} ELSE {<<>>}
 
 \* canon: the definition's text is exactly what the emitter writes (a hand-written, agreeing definition is not canonical)
 File(st, b, d, a, c) == [st |-> st, b |-> b, d |-> d, a |-> a, canon |-> c]
 Missing == File("missing", <<>>, "absent", <<>>, FALSE)
 Empty   == File("empty", <<>>, "absent", <<>>, FALSE)
 Partial == File("partial", <<>>, "absent", <<>>, FALSE)
-PreStates   == {Missing, Empty} \cup {File("mod", b, d, a, c) : b \in Ids, d \in {"absent", "v1", "v2"}, a \in {<<>>, <<"t1">>}, c \in BOOLEAN}
-TruthStates == {File("mod", b, d, a, c) : b \in Ids, d \in Ver, a \in {<<>>, <<"t1">>}, c \in BOOLEAN}
+PreStates   == {Missing, Empty} \cup {File("mod", b, d, a, c) : b \in Ids, d \in {"absent", "v1", "v2"}, a \in AfterIds, c \in BOOLEAN}
+TruthStates == {File("mod", b, d, a, c) : b \in Ids, d \in Ver, a \in AfterIds, c \in BOOLEAN}
 
 \* what a target must become when the truth says version v: created / appended / replaced in place, frame kept
 Wanted(f, v) == IF f.st \in {"missing", "empty", "partial"} THEN File("mod", <<>>, v, <<>>, TRUE)
@@ -57,7 +61,7 @@ VARIABLES fs,        \* the project
           spell      \* "canon" | "alias" -- how the truth file was named on the command line (only its spelling can matter)
 vars == <<fs, truth, given, pc, idx, wstep, pre, report, synced, runs, faulted, spell>>
 
-Init == /\ truth \in K
+Init == /\ truth \in BaseK
         /\ given \in {g \in SUBSET K : truth \in g /\ Cardinality(g) >= 2}
         /\ fs \in {g \in [K -> PreStates] : g[truth] \in TruthStates /\ \A k \in K : (g[k].d = "absent" => ~g[k].canon)}
         /\ pc = "idle" /\ idx = 1 /\ wstep = "none" /\ pre = fs
@@ -66,15 +70,16 @@ Init == /\ truth \in K
 
 Cur      == Kinds[idx]
 TruthVer == pre[truth].d
-IsTruthFile(k) == k = truth /\ (BySpelling => spell = "canon")
+\* SkipKind = TRUE is the design that leaves every file of the truth's *kind* alone, not only the truth file itself
+IsTruthFile(k) == (k = truth /\ (BySpelling => spell = "canon")) \/ (SkipKind /\ k = "twin")
 Keep(k)  == k \notin given \/ (SkipTruth /\ IsTruthFile(k)) \/ Wanted(fs[k], TruthVer) = fs[k]
 
 Begin == /\ pc = "idle" /\ runs < MaxRuns /\ ~faulted
          /\ pc' = "target" /\ idx' = 1 /\ pre' = fs /\ report' = [k \in K |-> FALSE] /\ runs' = runs + 1
          /\ UNCHANGED <<fs, truth, given, wstep, synced, faulted, spell>>
-DecideKeep  == /\ pc = "target" /\ wstep = "none" /\ idx <= 3 /\ Keep(Cur)
+DecideKeep  == /\ pc = "target" /\ wstep = "none" /\ idx <= Len(Kinds) /\ Keep(Cur)
                /\ idx' = idx + 1 /\ UNCHANGED <<fs, truth, given, pc, wstep, pre, report, synced, runs, faulted, spell>>
-DecideWrite == /\ pc = "target" /\ wstep = "none" /\ idx <= 3 /\ ~Keep(Cur)
+DecideWrite == /\ pc = "target" /\ wstep = "none" /\ idx <= Len(Kinds) /\ ~Keep(Cur)
                /\ wstep' = (IF Atomic THEN "tmp" ELSE "open")
                /\ UNCHANGED <<fs, truth, given, pc, idx, pre, report, synced, runs, faulted, spell>>
 Open   == /\ wstep = "open" /\ fs' = [fs EXCEPT ![Cur] = Partial] /\ wstep' = "write"
@@ -85,7 +90,7 @@ Tmp    == /\ wstep = "tmp" /\ wstep' = "rename"
           /\ UNCHANGED <<fs, truth, given, pc, idx, pre, report, synced, runs, faulted, spell>>
 Rename == /\ wstep = "rename" /\ fs' = [fs EXCEPT ![Cur] = Wanted(pre[Cur], TruthVer)] /\ wstep' = "none" /\ idx' = idx + 1
           /\ report' = [report EXCEPT ![Cur] = TRUE] /\ UNCHANGED <<truth, given, pc, pre, synced, runs, faulted, spell>>
-End    == /\ pc = "target" /\ idx = 4 /\ wstep = "none" /\ pc' = "idle" /\ synced' = TRUE
+End    == /\ pc = "target" /\ idx = Len(Kinds) + 1 /\ wstep = "none" /\ pc' = "idle" /\ synced' = TRUE
           /\ UNCHANGED <<fs, truth, given, idx, wstep, pre, report, runs, faulted, spell>>
 Fault  == /\ pc = "target" /\ ~faulted /\ faulted' = TRUE /\ pc' = "idle" /\ wstep' = "none"
           /\ UNCHANGED <<fs, truth, given, idx, pre, report, synced, runs, spell>>
